@@ -166,6 +166,8 @@ Proof.
   cbn [zl]. f_equal. induction cs as [|x xs IH]; [reflexivity|]. cbn [mapM]. rewrite <- IH. reflexivity.
 Qed.
 
+Lemma zl_Par r mask p a rn c groups : zl r mask p (Par a rn c) groups = zl r mask a c groups.
+Proof. reflexivity. Qed.
 Lemma fold_max_ge l : forall a, a <= fold_left Z.max l a.
 Proof. induction l as [|x l IH]; intros a; cbn [fold_left]; [lia|]. specialize (IH (Z.max a x)). lia. Qed.
 Lemma zl_cols_lens subs : map zlen (map zl_cols subs) = map zl_maxlen subs.
@@ -253,7 +255,7 @@ Proof.
   { rewrite <- (zlen_map (fun se : Z * Z => map (fun j => (j, fst se + j)) (iota (snd se - fst se))) bs).
     destruct (is_strk p) eqn:Es.
     - destruct (ParamOk_str _ _ (Valid_list_ParamOk _ _ _ HV Hc) Es) as (c0 & k & rn & n & dd & Hc1 & Hc2 & _).
-      rewrite Hc in Hc1. inversion Hc1; subst. cbn [zl] in Hout. eapply (zl_numpy r mask (Some k)). cbn [zl]. exact Hout.
+      rewrite Hc in Hc1. inversion Hc1; subst. rewrite zl_Par in Hout. exact (zl_numpy r mask (Some k) _ _ _ _ _ Hout).
     - eapply zl_valid_all; [apply Hvc; reflexivity|exact Hout]. }
   destruct Hok as (A & B & C & D). rewrite zlen_map. destruct keepdims.
   - split; [constructor; [exact I|lia|apply zlen_nonneg|intros _; exact A]|]. split; [|split; reflexivity].
